@@ -200,6 +200,26 @@ func checkC13(c *SchedCase) (o *Outcome, overlap int, nested int) {
 			insts[i] = newInst(s, files[i])
 		}
 		switch c.Engine {
+		case "yield":
+			// real goroutines on a single P, every sink write yields the processor: the goroutines interleave at sink-write
+			// granularity, and with one P they share one sync.Pool cache, so a buffer released too early is picked up at once
+			old := runtime.GOMAXPROCS(1)
+			var wg sync.WaitGroup
+			for _, in := range insts {
+				if !in.spec.Reader {
+					in.sink = &faultSink{inner: func(int) { runtime.Gosched() }}
+				}
+				wg.Add(1)
+				go func(in *inst) {
+					defer wg.Done()
+					for in.step() {
+						runtime.Gosched()
+					}
+				}(in)
+			}
+			wg.Wait()
+			runtime.GOMAXPROCS(old)
+			nested = len(insts)
 		case "reentrant":
 			// instance 0 is a writer; at the chosen sink writes the other instances run to completion inside Write(p)
 			k := 1
@@ -332,6 +352,10 @@ func (c *SchedCase) labels(overlap, nested int) (l []string, nt bool) {
 		nt = true
 		l = append(l, "nested-call-inside-sink-write")
 	}
+	if c.Engine == "yield" {
+		nt = true
+		l = append(l, "goroutines-on-one-P-yielding-at-sink-writes")
+	}
 	if len(c.Junk) > 0 {
 		l = append(l, "pools-polluted")
 	}
@@ -357,7 +381,7 @@ func (c *SchedCase) sample() interface{} {
 
 func TestC13(t *testing.T) {
 	rapid.Check(t, func(t *rapid.T) {
-		engine := rapid.SampledFrom([]string{"api", "reentrant"}).Draw(t, "engine")
+		engine := rapid.SampledFrom([]string{"api", "reentrant", "yield"}).Draw(t, "engine")
 		c := genSchedCase(t, engine)
 		o, overlap, nested := checkC13(c)
 		l, nt := c.labels(overlap, nested)
